@@ -301,6 +301,8 @@ func cmpReg(a, b pref) int {
 	case a.op == b.op:
 		if a.pos < b.pos {
 			return -1
+		} else if a.pos == b.pos {
+			return 0 // the same plug-in twice is reported as a duplicate
 		}
 		return 1
 	case a.rank == 5: // successive AppendRight calls
@@ -1646,7 +1648,7 @@ func shrink(cfg *Config, v viol) *Config {
 	if !reproduces(best) {
 		return nil
 	}
-	budget := 400
+	budget := 1200
 	for progress := true; progress && budget > 0; {
 		progress = false
 		var cands []func(c *Config) bool
